@@ -275,6 +275,25 @@ def card_prop_filter(draw, cards):
         tms = [draw(card_tm(_vals(cards, name))) for _ in range(2 if kind == "tm2" else 1)]
         return {"name": _mixed(draw, name), "text_matches": tms}
     name = draw(st.sampled_from(["EMAIL", "TEL", "ADR", "FN"]))
+    multi = []
+    for raw in cards:
+        try:
+            c = icalref.parse_one(raw, "VCARD")
+        except icalref.ParseError:
+            continue
+        for p_ in c.props:
+            vals = p_.param("TYPE")
+            if vals and len(vals) >= 2:
+                multi.append((p_.name, list(vals)))
+    if multi and kind != "param-undef" and draw(st.booleans()):
+        # a parameter with several values: the text-match (plain or negated) concerns each value on its own
+        pn, vals = draw(st.sampled_from(multi))
+        v = draw(st.sampled_from(vals))
+        tm = {"text": draw(st.sampled_from([v, v.swapcase(), v[:2]])), "collation": draw(st.sampled_from(COLLS)), "negate": draw(st.booleans())}
+        mt = draw(st.sampled_from(MATCH_TYPES))
+        if mt:
+            tm["match_type"] = mt
+        return {"name": _mixed(draw, pn), "params": [{"name": "TYPE", "text_match": tm}]}
     if kind == "param-undef":
         return {"name": _mixed(draw, name), "params": [{"name": "TYPE", "is_not_defined": True}]}
     return {"name": _mixed(draw, name), "params": [{"name": "TYPE", "text_match": draw(card_tm(["HOME", "WORK", "home", "CELL", "VOICE"]))}]}
